@@ -198,43 +198,8 @@ class C04Run(chainexec.Run):
                 break
 
 
-class Refused(Exception):
-    pass
-
-
-class NodeState:
-    """stands in for the CoinState of a chainexec.Run: add_block DELIVERS the block to a simulated node as an unsolicited
-    data message from a peer; every other attribute is read from the chain state the node serves at that moment"""
-
-    def __init__(self):
-        from vf import simnet
-        from skepticoin.coinstate import CoinState
-        from skepticoin.networking import messages as M
-        self.simnet, self.M = simnet, M
-        simnet.install()
-        self.net = simnet.Net()
-        self.node = self.net.add("n", "10.0.0.1", CoinState.zero(), 3)
-        self.n_wires = 0
-        self.connect()
-
-    def connect(self):
-        self.n_wires += 1
-        self.wire = self.simnet.Wire(self.net, self.node, host="10.0.4.%d" % (self.n_wires % 200 + 2))
-        self.wire.greet()
-
-    def add_block(self, skb, now):
-        self.simnet.CLOCK.now = now
-        if not self.wire.connected:
-            self.connect()
-        self.wire.send(self.M.DataMessage(self.M.DATA_BLOCK, skb))
-        self.wire.deliver()
-        self.net.drain(None, only=[self.node])
-        if skb.hash() in self.node.cm.coinstate.block_by_hash:
-            return self
-        raise Refused("the node did not take the delivered block into its chain state")
-
-    def __getattr__(self, name):
-        return getattr(self.node.cm.coinstate, name)
+Refused = chainexec.Refused
+NodeState = chainexec.NodeState
 
 
 def replay_relay(case):
@@ -244,6 +209,23 @@ def replay_relay(case):
     r = C04Run({"cfg": case["cfg"], "ops": []}, ("C04",))
     r.cs = NodeState()
     for op in case["ops"]:
+        if "redeliver" in op:
+            # a block the node already stores arrives AGAIN -- unsolicited, or as the answer to a request (two peers serving the
+            # same stretch of chain): no effect on head, tips and index
+            blk = r.world.blocks.get(op["redeliver"])
+            if blk is None or blk.id() not in r.world.uni.nodes:
+                continue
+            ns = r.cs
+            if not ns.wire.connected:
+                ns.connect()
+            ns.wire.send(ns.M.DataMessage(ns.M.DATA_BLOCK, r.build.to_sk_block(blk)), in_response_to=op["irt"])
+            ns.wire.deliver()
+            ns.net.drain(None, only=[ns.node])
+            r.stat("redeliveries")
+            r.oracle()
+            if r.fails:
+                return [dict(f, msg="after a repeated delivery (in_response_to=%d) of a stored block: %s" % (op["irt"], f["msg"])) for f in r.fails]
+            continue
         r.case = {"cfg": case["cfg"], "ops": [op]}
         r.execute()
         if r.harness:
@@ -268,6 +250,14 @@ def run(shard, tier, seed):
         def prop(rnd, cfg, k):
             case = chainexec.gen_case(rnd, cfg, k, 0.3, ["C05", "C02", "C01"], p_fork=0.55, p_tx=0.4, p_twin=0.0)
             case.pop("horizon", None)
+            ops, seen = [], []
+            for o in case["ops"]:
+                ops.append(o)
+                if not o.get("mut"):
+                    seen.append(o["label"])
+                if len(seen) >= 2 and rnd.random() < 0.3:
+                    ops.append({"label": "re%d" % len(ops), "parent": "g", "txs": [], "miner": 0, "redeliver": rnd.choice(seen[:-1]), "irt": rnd.choice([0, 7, 7])})
+            case["ops"] = ops
             case["relay"] = True
             fails = replay(case)
             res.evaluations += len(case["ops"])
